@@ -134,6 +134,21 @@ def make_test(spec):
             def id(self):
                 return spec["id"]
         return T("test")
+    if kind == "strictfail":
+        # a test whose failureException insists on its message argument (an exception class with a signature of its own)
+        class Strict(AssertionError):
+            def __init__(self, message):
+                super().__init__(message)
+
+        class S(testtools.TestCase):
+            failureException = Strict
+
+            def test(self):
+                pass
+
+            def id(self):
+                return spec["id"]
+        return S("test")
     if kind == "errorholder":
         return testtools.PlaceHolder(spec["id"], outcome="addError")
     return testtools.PlaceHolder(spec["id"])
@@ -271,7 +286,7 @@ def drive(result, history, on_step=None, details_fn=None):
 def random_test_spec(rng, i, tok, *, allow_no_start=False):
     outcome = rng.choice(OUTCOMES)
     spec = {"id": "t%d%s" % (i, rng.choice(["", "", "\xe9", " x"])), "outcome": outcome,
-            "kind": rng.choice(["placeholder", "placeholder", "testcase", "errorholder"])}
+            "kind": rng.choice(["placeholder", "placeholder", "testcase", "errorholder", "strictfail"])}
     forms = {"addSuccess": ["none", "details"], "addSkip": ["reason", "details"],
              "addUnexpectedSuccess": ["none", "details"]}.get(outcome, ["exc", "details"])
     spec["form"] = rng.choice(forms)
